@@ -74,6 +74,7 @@ func plans(id, tier string) (Plan, bool) {
 			{Pkg: pkgV2, Harness: "c02_corpus", Params: "t=0.8;families=clusters;ndocs=" + fmt.Sprint(pick(60, 431)), Shards: 16},
 			{Pkg: pkgV2, Harness: "c02_corpus", Params: "t=0.8;docs=gnu;families=specialwords", Shards: 16},
 			{Pkg: pkgV2, Harness: "c02_corpus", Params: "t=0.8;families=resplit;ndocs=431", Shards: 16},
+			{Pkg: pkgV2, Harness: "c02_corpus", Params: "t=0.8;families=moved;ndocs=" + fmt.Sprint(pick(40, 431)), Shards: 16},
 			{Pkg: pkgV2, Harness: "c02_corpus", Params: "t=0.8;trace=all;families=exact,truncate,partnoise,edit1,periodic;ndocs=" + fmt.Sprint(pick(24, 200)), Shards: 16},
 			{Pkg: pkgV2, Harness: "c02_corpus", Params: "t=0.8;families=boundary;ndocs=" + fmt.Sprint(pick(100, 431)), Shards: 16},
 			{Pkg: pkgV2, Harness: "c02_corpus", Params: "t=0.9;families=boundary;ndocs=" + fmt.Sprint(pick(40, 431)), Shards: 16},
@@ -154,6 +155,9 @@ func plans(id, tier string) (Plan, bool) {
 				{Pkg: pkgV2, Harness: "c07_corpus", Params: "t=0.8;families=exact,partnoise;contexts=pow2;ndocs=40", Shards: 16},
 				{Pkg: pkgV2, Harness: "c07_corpus", Params: "t=0.8;families=exact,partnoise;contexts=distinct;ndocs=24", Shards: 16},
 				{Pkg: pkgV2, Harness: "c07_corpus", Params: "t=0.8;families=clusters;ndocs=120", Shards: 16},
+				{Pkg: pkgV2, Harness: "c07_corpus", Params: "t=0.876;families=headcut;ndocs=431", Shards: 16},
+				{Pkg: pkgV2, Harness: "c07_corpus", Params: "t=0.8;families=headcut;ndocs=431", Shards: 16},
+				{Pkg: pkgV2, Harness: "c07_corpus", Params: "t=0.933;families=headcut,exact;ndocs=431", Shards: 16},
 			}}, true
 		}
 		return Plan{Level: "exploration", Jobs: []Job{
@@ -165,6 +169,9 @@ func plans(id, tier string) (Plan, bool) {
 			{Pkg: pkgV2, Harness: "c07_corpus", Params: "t=0.8;families=exact,partnoise;contexts=pow2;ndocs=" + fmt.Sprint(pick(6, 40)), Shards: 16},
 			{Pkg: pkgV2, Harness: "c07_corpus", Params: "t=0.8;families=exact;contexts=distinct;ndocs=8", Shards: 8},
 			{Pkg: pkgV2, Harness: "c07_corpus", Params: "t=0.8;families=clusters;ndocs=" + fmt.Sprint(pick(24, 120)), Shards: 16},
+			// thresholds that are not a whole percent, documents cut by about what they allow
+			{Pkg: pkgV2, Harness: "c07_corpus", Params: "t=0.876;families=headcut;ndocs=431", Shards: 16},
+			{Pkg: pkgV2, Harness: "c07_corpus", Params: "t=0.8;families=headcut;ndocs=60", Shards: 16},
 		}}, true
 	case "C08":
 		return Plan{Level: "fault_enumeration", Jobs: []Job{
@@ -316,6 +323,7 @@ func plans(id, tier string) (Plan, bool) {
 		for _, sc := range []int{0, 4} {
 			jobs = append(jobs, Job{Pkg: pkgSC, Harness: "c14_sched", Instr: "v1deep", Params: fmt.Sprintf("scenario=%d;policy=delay;budget=%d", sc, pick(1, 2)), Shards: pick(2, 8)})
 		}
+		jobs = append(jobs, Job{Pkg: pkgSC, Harness: "c14_sched", Instr: "v1deep", Params: fmt.Sprintf("scenario=24;policy=delay;budget=%d", pick(1, 2)), Shards: pick(2, 8)})
 		// a registered value of more than 64 KiB that is also the query
 		jobs = append(jobs, Job{Pkg: pkgSC, Harness: "c14_sched", Instr: "v1", Params: fmt.Sprintf("scenario=17;values=1;valuebytes=66000;policy=delay;budget=%d", pick(1, 2)), Shards: pick(2, 8)})
 		jobs = append(jobs, Job{Pkg: pkgSC, Harness: "c14_sched", Instr: "v1", Params: "scenario=18;values=1;valuebytes=66000;policy=delay;budget=1", Shards: pick(2, 8)})
